@@ -199,6 +199,15 @@ func StructLitField(base ssa.Value, name string) []ssa.Value {
 		return nil
 	}
 	for _, r := range *refs {
+		// x := T{...} with x escaping: a temporary literal is built and copied in whole
+		if st, ok := r.(*ssa.Store); ok && st.Addr == base {
+			if ld, ok := st.Val.(*ssa.UnOp); ok && ld.Op == token.MUL {
+				if tmp, ok := ld.X.(*ssa.Alloc); ok && tmp != base {
+					out = append(out, StructLitField(tmp, name)...)
+				}
+			}
+			continue
+		}
 		fa, ok := r.(*ssa.FieldAddr)
 		if !ok {
 			continue
@@ -557,4 +566,29 @@ func RootsVisit(v ssa.Value, fe *Feas, visit func(ssa.Value) bool) []ssa.Value {
 	}
 	walk(v)
 	return out
+}
+
+// FeasibleAfter: blocks/edges that can execute after instruction `after`
+// (plain CFG). Used to resolve phis path-sensitively "given that this call
+// happened".
+func FeasibleAfter(after ssa.Instruction) *Feas {
+	fe := &Feas{Reach: map[*ssa.BasicBlock]bool{}, bad: map[Edge]bool{}}
+	start := after.Block()
+	stack := append([]*ssa.BasicBlock{}, start.Succs...)
+	fe.Reach[start] = true // control continues from the start block
+	seen := map[*ssa.BasicBlock]bool{}
+	for len(stack) > 0 {
+		b := stack[len(stack)-1]
+		stack = stack[:len(stack)-1]
+		if seen[b] {
+			continue
+		}
+		seen[b] = true
+		fe.Reach[b] = true
+		stack = append(stack, b.Succs...)
+	}
+	// edges INTO the start block from blocks that are not reachable after it are irrelevant;
+	// phis in the start block itself were evaluated before `after`: treat them as opaque by
+	// leaving their edges feasible (over-approximation).
+	return fe
 }
